@@ -273,6 +273,27 @@ Theorem C02_bool_not_full :
 Proof. exact bool_not. Qed.
 Print Assumptions C02_bool_not_full.
 
+(** && and || (run.go land / lor, rows regenerated from the source): the value, and in branch context
+    (condition of if / for / case, left operand of an enclosing && / ||) the result is stored in the
+    frame slot on BOTH paths, so a later evaluation in the same activation cannot read a stale value *)
+Theorem C02_logic_full :
+  forall fn o r a b, (o = LAnd \/ o = LOr) -> In r (logic_rows fn o) ->
+    denote r KBool (VBool a) (VBool b) = lift_bool (r_br r) (Ok (go_logic o a b)).
+Proof. exact logic_rows_full. Qed.
+Print Assumptions C02_logic_full.
+
+Theorem C02_logic_rows_in_table :
+  forallb (fun m => existsb (fun r => if row_eq_dec r m then true else false) op_table)
+          (logic_rows "land" LAnd ++ logic_rows "lor" LOr) = true.
+Proof. exact logic_rows_in_table. Qed.
+Print Assumptions C02_logic_rows_in_table.
+
+Theorem C02_logic_branch_stores_both_paths :
+  forallb (fun r => negb ((String.eqb (r_fn r) "land" || String.eqb (r_fn r) "lor" || String.eqb (r_fn r) "not") && r_br r)
+                    || (if setter_eq_dec (r_set r) (SBranch true NT false NF) then true else false)) op_table = true.
+Proof. exact logic_branch_stores_both_paths. Qed.
+Print Assumptions C02_logic_branch_stores_both_paths.
+
 (** non-vacuity of the implications above: concrete evaluations through the selected rows *)
 Theorem C02_arith_inhabited :
   run_row (select_bin Mul KInt8 FVar) KInt8 (VInt KInt8 100) (VInt KInt8 3) = YVal (VInt KInt8 44)
